@@ -1616,7 +1616,9 @@ impl<'a, const C: usize, const R: usize, T: 'a + Copy + std::fmt::Debug> Layout<
                 self.rpt_action = Some(action);
             }
             Src => {
-                let action = &self.src_keys[usize::from(coord.1)];
+                // Chords v2 activate at virtual coordinates beyond the defsrc row; there is no
+                // defsrc key to fall back to there.
+                let action = self.src_keys.get(usize::from(coord.1)).unwrap_or(&NoOp);
                 // Risk: infinite recursive resulting in stack overflow.
                 // In practice this is not expected to happen.
                 // The `src_keys` actions are all expected to be `KeyCode` or `NoOp` actions.
